@@ -30,6 +30,7 @@ RULE = ("lock-step differential: every operation of a history (awaited call, fai
         "distinct = (configuration, history)")
 RULE += (" Also: results None/0/False/''/() ; keyword names self/key/args/typed; failing calls raising every standard exception type (incl. falsy exception instances); bound/unbound access sharing one store.")
 RULE += (' Also: lru_cache(maxsize=<anything>) construction against functools; opaque results.')
+RULE += (' Also: the decorator applied directly with typed (lru_cache(fn, True)); results that happen to be awaitable.')
 ASSUMPTIONS = ["functools.lru_cache (C implementation of the running 3.12 interpreter) is the reference",
                "cache_discard has no stdlib twin: reference is the cross-validated model"]
 EXHAUSTIVE_SUBSPACES = 'all histories of length <= 4 (thorough: 5) over 7 operations for maxsize 1 and 2'
@@ -180,12 +181,14 @@ class Backend:
         # cached, counted and served exactly like the rest
         n = len(self.log)
         # ... and so is an object that refuses to be inspected (no truth value, no equality, no hash)
-        return (("r", n), None, 0, ("r", n), False, "", (), OPAQUE)[n % 8]
+        # ... or one that happens to be awaitable itself (a job handle): handed back as it is, not awaited
+        return (("r", n), None, 0, ("r", n), False, "", (), OPAQUE, AWAITABLE_RESULT)[n % 9]
 
 
-from ..tools import Opaque  # noqa: E402
+from ..tools import Opaque, AwaitablePayload  # noqa: E402
 
 OPAQUE = Opaque("result")
+AWAITABLE_RESULT = AwaitablePayload("result")
 
 
 def build(case):
